@@ -39,6 +39,11 @@ def scenarios(quick: bool) -> list[tuple[dict, int]]:
             "dev": alld + ("call", "foreign"),
         }
         sc.append((p, 1 if quick else 2))
+    # the owner of a call abandons it (its task is cancelled) at any moment: in flight, queued, between echo and reply
+    for to in (0.5001, 20.0):
+        p = {"qos_mode": False, "callers": [caller("rq30c9_01", timeout=to), caller("w2309_02", timeout=20.0)], "dev": ENV + ("cancel",)}
+        sc.append((p, 2))
+    sc.append(({"qos_mode": False, "callers": [caller("rq30c9_01", timeout=20.0)], "dev": ENV + ("cancel", "wfail", "disc")}, 2))
     # traffic of a block-listed device (dropped by the protocol's filter, never decoded) while commands are in flight
     for cmd in ("rq30c9_01", "w2309_01"):
         p = {"qos_mode": False, "callers": [caller(cmd, timeout=20.0), caller("rq30c9_02", timeout=20.0)], "dev": ENV + ("foreign",), "exclude": ["04:000001"], "foreign_kinds": ["blocked_bad_idx", "blocked_ok"]}
@@ -81,6 +86,7 @@ def bfs_scenarios(quick: bool) -> list[dict]:
     sc.append({"qos_mode": False, "flat": True, "callers": [caller("rq30c9_01", timeout=20.0), caller("w2309_02", timeout=0.5001)], "dev": ("drop", "disc")})
     if not quick:
         sc.append({"qos_mode": False, "flat": True, "callers": [caller("rq30c9_01", timeout=20.0), caller("w2309_02", timeout=1.5001), caller("rq30c9_03", timeout=20.0)], "dev": ("drop", "disc")})
+    sc.append({"qos_mode": False, "flat": True, "callers": [caller("rq30c9_01", timeout=20.0), caller("w2309_02", timeout=20.0)], "dev": ("drop", "cancel")})
     # writing paused and resumed at any point (an MQTT gateway going offline / online), any number of times, among losses
     sc.append({"qos_mode": False, "flat": True, "callers": [caller("rq30c9_01", timeout=20.0)], "dev": ("drop", "pause")})
     if not quick:
